@@ -2,6 +2,7 @@
 import os, re
 import vlib
 from vlib import Case
+import props.hdr_facts as F
 
 ID = "C03"
 COQ_DIRS = ["Common", "C13", "C03"]
@@ -31,62 +32,199 @@ ASSUMPTIONS = [
 TRUSTED = ["translator props/c03.py:translate compares is_tchar, the forbidden value/pseudo-value byte classes, the connection-specific names, the te rule, the content-length digit rule and the three Content-Length/DATA comparisons with /repo"]
 
 
+TCHAR = set(b"!#$%&'*+-.^_`|~") | set(range(48, 58)) | set(range(65, 91)) | set(range(97, 123))
+DIGITS = set(range(48, 58))
+BAD_VALUE = set(range(0, 9)) | set(range(10, 32)) | {127}
+
+TRANSLATE_FALLBACK = ("every fact read here decides which header lists / byte strings are accepted and what is written: the in-process "
+                      "correspondence (h2, guard and h1 ops: one forbidden byte class at a time in names, values and pseudo-values, "
+                      "connection-specific names, te, Content-Length syntax and repetitions, :path / :scheme / :method forms, unframed "
+                      "requests) compares the real verdict and bytes with the model's on every case, and the two black-box tiers "
+                      "(extra_stage, run on every check) compare the client outcome of every Content-Length/DATA schedule with "
+                      "data_agree; a changed fact therefore shows as a correspondence mismatch or an oracle violation")
+
+
+def _fact(fails, what, assumed, fn):
+    """fn() -> None | text of a RECOGNISED difference (hard failure); Unreadable / any parsing accident -> soft"""
+    try:
+        d = fn()
+        if d:
+            fails.append("%s: %s (the model assumes %s)" % (what, d, assumed))
+    except F.Unreadable as ex:
+        fails.append("unreadable: %s: %s; the model assumes %s" % (what, ex, assumed))
+    except Exception as ex:     # a pattern that is simply not there any more
+        fails.append("unreadable: %s: %r; the model assumes %s" % (what, ex, assumed))
+
+
+def _pred_fn(src, name, env=None):
+    """set of bytes for which the one-argument predicate `fn name(x: u8) -> bool` is true"""
+    m = re.search(r"\bfn\s+%s\s*\(\s*(\w+)\s*:" % re.escape(name), src)
+    if not m:
+        raise F.Unreadable("fn %s not found" % name)
+    return F.eval_pred(F.fn_body(src, name), m.group(1), env)
+
+
+def _slice_pred(src, name, env=None):
+    """for `fn name(v: &[u8]) -> bool { v.iter().any|all(|b| EXPR) }`: (method, set of bytes making EXPR true)"""
+    body = F.fn_body(src, name)
+    meth, var, expr = F.closure_pred(body)
+    neg = re.match(r"\s*!", body) is not None
+    return meth, neg, F.eval_pred(expr, var, env)
+
+
 def translate():
     fails = []
-    pk = open(os.path.join(vlib.REPO, "lib/src/protocol/mux/pkawa.rs")).read()
-    h2 = open(os.path.join(vlib.REPO, "lib/src/protocol/mux/h2.rs")).read()
-    m = re.search(r"fn is_tchar\(b: u8\) -> bool \{\s*matches!\(\s*b,(.*?)\)\s*\}", pk, re.S)
-    if not m:
-        fails.append("pkawa.rs: is_tchar not found")
-    else:
-        toks = re.findall(r"b'(\\?.)'(?:\.\.=b'(.)')?", m.group(1))
-        got = set()
-        for a, b2 in toks:
-            a = a[-1]
-            if b2:
-                got |= set(range(ord(a), ord(b2) + 1))
+    rd = lambda rel: F.strip_comments(open(os.path.join(vlib.REPO, rel)).read())
+    pk, h2, ed = rd("lib/src/protocol/mux/pkawa.rs"), rd("lib/src/protocol/mux/h2.rs"), rd("lib/src/protocol/kawa_h1/editor.rs")
+    pk = F.subst_consts(pk, F.consts(pk))
+    ed = F.subst_consts(ed, F.consts(ed))
+
+    def tchar():
+        got = _pred_fn(pk, "is_tchar")
+        return None if got == TCHAR else "the token table differs on bytes %r" % sorted(got ^ TCHAR)
+    _fact(fails, "pkawa.rs is_tchar", "RFC 9110 tchar", tchar)
+
+    def name_bytes():
+        meth, neg, got = _slice_pred(pk, "has_invalid_name_byte", {"is_tchar": TCHAR})
+        bad = got if (meth == "any") != neg else set(range(256)) - got
+        want = set(range(256)) - (TCHAR - set(range(65, 91)))
+        return None if bad == want else "invalid name bytes differ on %r" % sorted(bad ^ want)
+    _fact(fails, "pkawa.rs has_invalid_name_byte", "upper-case or non-token bytes", name_bytes)
+
+    def pseudo_bytes():
+        meth, neg, got = _slice_pred(pk, "has_invalid_pseudo_value_byte")
+        bad = got if (meth == "any") != neg else set(range(256)) - got
+        want = set(range(0, 33)) | {127}
+        return None if bad == want else "invalid pseudo-header value bytes differ on %r" % sorted(bad ^ want)
+    _fact(fails, "pkawa.rs has_invalid_pseudo_value_byte", "0x00..=0x20 | 0x7F", pseudo_bytes)
+
+    def value_bytes():
+        arms = F.match_arm_sets(F.fn_body(pk, "classify_invalid_value_byte"))
+        bad = set()
+        for st, text in arms:
+            if st is None:
+                if text.strip() not in ("{}", "()", "{ }"):
+                    raise F.Unreadable("the wildcard arm does something")
             else:
-                got.add(ord(a))
-        want = set(b"!#$%&'*+-.^_`|~") | set(range(48, 58)) | set(range(65, 91)) | set(range(97, 123))
-        if got != want:
-            fails.append("pkawa.rs: is_tchar table differs from the model's (%r)" % sorted(got ^ want))
-    checks = [
-        (r"name\.iter\(\)\.any\(\|&b\| b\.is_ascii_uppercase\(\) \|\| !is_tchar\(b\)\)", "has_invalid_name_byte"),
-        (r"value\.iter\(\)\.any\(\|&b\| matches!\(b, 0x00\.\.=0x20 \| 0x7F\)\)", "has_invalid_pseudo_value_byte = 0x00..=0x20 | 0x7F"),
-        (r"0x00 => saw_nul = true,\s*0x0A \| 0x0D => saw_crlf = true,\s*0x01\.\.=0x08 \| 0x0B \| 0x0C \| 0x0E\.\.=0x1F \| 0x7F =>", "classify_invalid_value_byte classes"),
-        (r"if name\[0\] != b':' && has_invalid_name_byte\(name\)", "classify: name check skipped for ':' names only"),
-        (r"if is_connection_specific_header\(name\) \{\s*return Some\(RejectReason::ConnectionSpecificHeader\)", "classify: connection-specific"),
-        (r'compare_no_case\(name, b"te"\) && is_invalid_te_value\(value\)', "classify: te"),
-        (r"!compare_no_case\(value, b\"trailers\"\)", "is_invalid_te_value"),
-        (r"value\.is_empty\(\) \|\| !value\.iter\(\)\.all\(\|b\| b\.is_ascii_digit\(\)\)", "content-length = 1*DIGIT"),
-        (r"BodySize::Length\(existing\) if existing != length => false", "set_content_length conflict"),
-        (r"let already_declared = matches!\(kawa\.body_size, BodySize::Length\(_\)\);.*?if already_declared \{.*?return Ok\(\(\)\);", "repeated equal content-length forwarded once"),
-        (r'v\.as_ref\(\) != b"http" && v\.as_ref\(\) != b"https"', ":scheme literal check"),
-        (r"v\.contains\(&b'#'\)", ":path fragment check"),
-        (r"!v\.iter\(\)\.all\(\|&b\| is_tchar\(b\)\)", ":method token check"),
-        (r"if !\(starts_with_slash \|\| \(is_asterisk && method_is_options\)\)", ":path form"),
-        (r"if n > 0 && !body_exempt", "END_STREAM with non-zero Content-Length"),
-    ]
-    for rx, what in checks:
-        if not re.search(rx, pk, re.S):
-            fails.append("pkawa.rs: %s no longer has the shape the model mirrors" % what)
-    ed = open(os.path.join(vlib.REPO, "lib/src/protocol/kawa_h1/editor.rs")).read()
-    for rx, what in [
-        (r"if key\.is_empty\(\) \|\| !key\.iter\(\)\.all\(\|&b\| is_token_byte\(b\)\)", "h1_framing_violation: field name is a non-empty token"),
-        (r"if transfer_encoding_seen \|\| !compare_no_case\(header\.val\.data\(buf\), b\"chunked\"\)", "h1_framing_violation: Transfer-Encoding exactly one chunked"),
-        (r"if val\.is_empty\(\) \|\| !val\.iter\(\)\.all\(u8::is_ascii_digit\)", "h1_framing_violation: Content-Length 1*DIGIT"),
-        (r"b\.is_ascii_alphanumeric\(\) \|\| b\"!#\$%&'\*\+-\.\^_`\|~\"\.contains\(&b\)", "is_token_byte table"),
-        (r"\.is_some_and\(\|m\| !m\.is_empty\(\) && m\.iter\(\)\.all\(\|&b\| is_token_byte\(b\)\)\)", "method is a token"),
-        (r"if request\.body_size == kawa::BodySize::Empty\s*&& request\.parsing_phase == kawa::ParsingPhase::Body\s*\{\s*request\.parsing_phase = kawa::ParsingPhase::Terminated;", "a request without framing has no body"),
-        (r"if let Some\(reason\) = h1_framing_violation\(&request\.blocks, buf\) \{\s*request\.parsing_phase\.error\(reason\.into\(\)\);\s*return;", "a framing violation is turned into a parse error (400)"),
-    ]:
-        if not re.search(rx, ed):
-            fails.append("editor.rs: %s no longer has the shape the model's h1_guard mirrors" % what)
-    for rx, what in [(r"if data_received > expected \{", "DATA total > Content-Length => reset"),
-                     (r"if data_received != expected \{", "END_STREAM: DATA total != Content-Length => reset"),
-                     (r"if \*parts\.data_received != expected \{", "trailers: DATA total != Content-Length => reset")]:
-        if not re.search(rx, h2):
-            fails.append("h2.rs: %s is gone" % what)
+                bad |= st
+        return None if bad == BAD_VALUE else "forbidden value bytes differ on %r" % sorted(bad ^ BAD_VALUE)
+    _fact(fails, "pkawa.rs classify_invalid_value_byte", "0x00..=0x08 | 0x0A..=0x1F | 0x7F", value_bytes)
+
+    def classify():
+        body = F.fn_body(pk, "classify_invalid_h2_header")
+        for callee in ("has_invalid_name_byte", "is_connection_specific_header", "is_invalid_te_value", "classify_invalid_value_byte"):
+            if not re.search(r"\b%s\s*\(" % callee, body):
+                raise F.Unreadable("no call to %s" % callee)
+        if not (re.search(r"\[\s*0\s*\]\s*!=\s*b':'", body) or re.search(r"!\s*\w+\.starts_with\(\s*b\":\"\s*\)", body)
+                or re.search(r"first\(\)\s*!=\s*Some\(\s*&b':'\s*\)", body)):
+            raise F.Unreadable("the ':' exemption of the name check is not recognised")
+        if b"te" not in [x for _, x in F.byte_strings(body)]:
+            raise F.Unreadable("the te rule does not name b\"te\"")
+    _fact(fails, "pkawa.rs classify_invalid_h2_header", "name bytes (not for ':' names), connection-specific, te, value bytes", classify)
+
+    def te_value():
+        body = F.fn_body(pk, "is_invalid_te_value")
+        if b"trailers" not in [x for _, x in F.byte_strings(body)] or "!" not in body:
+            raise F.Unreadable("not `!compare(value, b\"trailers\")`")
+    _fact(fails, "pkawa.rs is_invalid_te_value", "anything but `trailers` (case-insensitive)", te_value)
+
+    def cl_digits():
+        body = F.fn_body(pk, "write_regular_header")
+        if b"content-length" not in [x.lower() for _, x in F.byte_strings(body)]:
+            raise F.Unreadable("content-length is not named")
+        meth, var, expr = F.closure_pred(body, ("all",))
+        got = F.eval_pred(expr, var)
+        if got != DIGITS:
+            return "content-length bytes accepted: %r" % sorted(got)
+        if not re.search(r"\.is_empty\(\)", body):
+            raise F.Unreadable("the empty value test is not recognised")
+        m = re.search(r"let\s+(\w+)\s*=\s*matches!\(\s*kawa\.body_size\s*,\s*BodySize::Length\(\s*_\s*\)\s*\)", body)
+        if not m or not re.search(r"if\s+%s\s*\{[^{}]*return\s+Ok\(\(\)\)" % m.group(1), body):
+            raise F.Unreadable("`a repeated equal content-length is not pushed again` is not recognised")
+    _fact(fails, "pkawa.rs write_regular_header", "content-length = 1*DIGIT, a repeated equal value forwarded once", cl_digits)
+
+    def cl_conflict():
+        body = F.fn_body(pk, "set_content_length")
+        if not re.search(r"Length\(\s*(\w+)\s*\)\s*if\s*(?:\1\s*!=\s*\w+|\w+\s*!=\s*\1)\s*=>\s*false", body) and not re.search(r"\w+\s*!=\s*\w+", body):
+            raise F.Unreadable("no inequality test")
+    _fact(fails, "pkawa.rs set_content_length", "a second, different length is refused", cl_conflict)
+
+    def pseudo_rules():
+        body = F.fn_body(pk, "handle_header")
+        lits = [x for _, x in F.byte_strings(body)]
+        for need in (b"http", b"https", b"*", b"OPTIONS", b":method", b":scheme", b":path", b":authority"):
+            if need not in lits:
+                raise F.Unreadable("literal %r is not in handle_header" % need)
+        if "b'#'" not in body or "b'/'" not in body:
+            raise F.Unreadable("the '#' / leading '/' tests are not recognised")
+        if not re.search(r"\.all\(\s*\|\s*&?\s*(\w+)\s*\|\s*is_tchar\(\s*\*?\1\s*\)\s*\)", body):
+            raise F.Unreadable("the :method token test is not recognised")
+        if not re.search(r"!\s*\(\s*\w+\s*\|\|\s*\(\s*\w+\s*&&\s*\w+\s*\)\s*\)", body):
+            raise F.Unreadable("the :path form test `!(slash || (asterisk && options))` is not recognised")
+        if not re.search(r"(\w+\s*>\s*0|0\s*<\s*\w+|\w+\s*!=\s*0)\s*&&\s*!\s*\w+", body):
+            raise F.Unreadable("the END_STREAM with non-zero Content-Length test is not recognised")
+    _fact(fails, "pkawa.rs handle_header", ":scheme http|https, :path without '#', origin-form or `*` for OPTIONS, :method token, END_STREAM => length 0", pseudo_rules)
+
+    # ---- sozu's own HTTP/1 acceptance (editor.rs)
+    def guard():
+        body = F.fn_body(ed, "h1_framing_violation")
+        lits = [x.lower() for _, x in F.byte_strings(body)]
+        for need in (b"transfer-encoding", b"chunked", b"content-length"):
+            if need not in lits:
+                raise F.Unreadable("literal %r is not in h1_framing_violation" % need)
+        m = re.search(r"\.all\(\s*\|\s*&?\s*(\w+)\s*\|\s*(\w+)\(\s*\*?\1\s*\)\s*\)", body)
+        if not m or not re.search(r"\.is_empty\(\)", body):
+            raise F.Unreadable("the field-name test is not recognised")
+        tok = _pred_fn(ed, m.group(2))
+        if tok != TCHAR:
+            return "field-name bytes accepted differ from tchar on %r" % sorted(tok ^ TCHAR)
+        if "is_ascii_digit" not in body:
+            raise F.Unreadable("the Content-Length digit test is not recognised")
+        if not re.search(r"if\s+(\w+)\s*\|\|\s*!", body) or not re.search(r"\w+\s*=\s*true\s*;", body):
+            raise F.Unreadable("the `Transfer-Encoding seen twice or not chunked` test is not recognised")
+        req = F.fn_body(ed, "on_request_headers")
+        if not re.search(r"if\s+let\s+Some\(\s*(\w+)\s*\)\s*=\s*h1_framing_violation\([^)]*\)\s*\{\s*request\.parsing_phase\.error\(\s*\1\.into\(\)\s*\)\s*;\s*return\s*;", req):
+            raise F.Unreadable("`a violation becomes a parse error` is not recognised")
+        if not re.search(r"\.all\(\s*\|\s*&?\s*(\w+)\s*\|\s*%s\(\s*\*?\1\s*\)\s*\)" % m.group(2), req):
+            raise F.Unreadable("the method token test is not recognised")
+    _fact(fails, "editor.rs h1_framing_violation", "token names and method, one exact `chunked`, Content-Length 1*DIGIT, violation => 400", guard)
+
+    def no_body():
+        req = F.fn_body(ed, "on_request_headers")
+        ma = re.search(r"\{\s*request\.parsing_phase\s*=\s*kawa::ParsingPhase::Terminated\s*;", req)
+        if not ma:
+            raise F.Unreadable("the termination of an unframed request is not found")
+        ifs = [x.start() for x in re.finditer(r"\bif\s", req[:ma.start()])]
+        if not ifs:
+            raise F.Unreadable("no condition guards the termination")
+        cond = req[ifs[-1] + 2:ma.start()]
+        m = re.match(r"(.*)", cond, re.S)
+        conj = [re.sub(r"\s+", "", c) for c in cond.split("&&")]
+        want = {"request.body_size==kawa::BodySize::Empty", "request.parsing_phase==kawa::ParsingPhase::Body"}
+        alt = {"kawa::BodySize::Empty==request.body_size": "request.body_size==kawa::BodySize::Empty",
+               "kawa::ParsingPhase::Body==request.parsing_phase": "request.parsing_phase==kawa::ParsingPhase::Body"}
+        got = {alt.get(c, c) for c in conj}
+        if got == want:
+            return None
+        if want <= got:
+            return "the rule has extra conditions %r" % sorted(got - want)
+        raise F.Unreadable("condition %r" % m.group(1).strip()[:80])
+    _fact(fails, "editor.rs on_request_headers", "a request with BodySize::Empty in Body phase is Terminated, unconditionally", no_body)
+
+    # ---- Content-Length vs DATA (h2.rs)
+    def ledger():
+        ops = []
+        for m in re.finditer(r"(\*?[\w.]*(?:received|expected|declared)\w*)\s*(>=|<=|!=|==|>|<)\s*(\*?[\w.]*(?:received|expected|declared)\w*)", h2):
+            a_, op, b_ = m.group(1), m.group(2), m.group(3)
+            if "received" in a_ and ("expected" in b_ or "declared" in b_):
+                ops.append(op)
+            elif "received" in b_ and ("expected" in a_ or "declared" in a_):
+                ops.append({">": "<", "<": ">", ">=": "<=", "<=": ">="}.get(op, op))
+        if not ops:
+            raise F.Unreadable("no comparison between the DATA total and the declared length")
+        if sorted(ops) != sorted([">", "!=", "!="]):
+            return "DATA total vs declared length is compared with %r" % ops
+    _fact(fails, "h2.rs handle_data_frame / trailers", "reset when total > declared on any DATA, and when total != declared at END_STREAM (DATA or trailers)", ledger)
     return fails
 
 
